@@ -226,13 +226,13 @@ theorem step_catchPanic {env : Env} {n : Nat} (S : Spec env n) :
         have hq1 : Pre q1 := Pre_congr rfl hq
         have w1 := G_w hq1 percentBang
         have w2 := G.trans w1 (G_wr (G.pre hq1 w1) verb)
-        have w3 := G.trans w2 (G_w (G.pre hq1 w2) "(PANIC=".toUTF8.toList)
+        have w3 := G.trans w2 (G_w (G.pre hq1 w2) ([0x28, 0x50, 0x41, 0x4E, 0x49, 0x43, 0x3D] /- "(PANIC=" -/ : List UInt8))
         have w4 := G.trans w3 (G_w (G.pre hq1 w3) m)
-        have w5 := G.trans w4 (G_w (G.pre hq1 w4) " method: ".toUTF8.toList)
+        have w5 := G.trans w4 (G_w (G.pre hq1 w4) ([0x20, 0x6D, 0x65, 0x74, 0x68, 0x6F, 0x64, 0x3A, 0x20] /- " method: " -/ : List UInt8))
         have hq5 := G.pre hq1 w5
         apply GR_bind (p := p)
-        · have := S.printArg _ payload 118 (Pre_congr (p := ((((q1.w percentBang).wr verb).w "(PANIC=".toUTF8.toList).w m).w " method: ".toUTF8.toList)
-            (p1 := { ((((q1.w percentBang).wr verb).w "(PANIC=".toUTF8.toList).w m).w " method: ".toUTF8.toList with panicking := true }) rfl hq5) hpl
+        · have := S.printArg _ payload 118 (Pre_congr (p := ((((q1.w percentBang).wr verb).w ([0x28, 0x50, 0x41, 0x4E, 0x49, 0x43, 0x3D] /- "(PANIC=" -/ : List UInt8)).w m).w ([0x20, 0x6D, 0x65, 0x74, 0x68, 0x6F, 0x64, 0x3A, 0x20] /- " method: " -/ : List UInt8))
+            (p1 := { ((((q1.w percentBang).wr verb).w ([0x28, 0x50, 0x41, 0x4E, 0x49, 0x43, 0x3D] /- "(PANIC=" -/ : List UInt8)).w m).w ([0x20, 0x6D, 0x65, 0x74, 0x68, 0x6F, 0x64, 0x3A, 0x20] /- " method: " -/ : List UInt8) with panicking := true }) rfl hq5) hpl
           exact ⟨fun r hr => G.trans gq (G.trans (G.trans (G_same hq rfl rfl) w5) (this.1 r hr)), this.2⟩
         · intro r gr
           have hr := G.pre hp gr
@@ -367,7 +367,7 @@ theorem step_printValue {env : Env} {n : Nat} (S : Spec env n) :
     split
     · exact GR_ok (G.trans (G_w hp _) (G_w (G.pre hp (G_w hp _)) _))
     · dsimp only
-      have g1 : G p (if p.f.sharpV = true then (p.w ty).wb 0x7B else p.w "map[".toUTF8.toList) :=
+      have g1 : G p (if p.f.sharpV = true then (p.w ty).wb 0x7B else p.w ([0x6D, 0x61, 0x70, 0x5B] /- "map[" -/ : List UInt8)) :=
         G_ite (G.trans (G_w hp _) (G_wb (G.pre hp (G_w hp _)) _)) (G_w hp _)
       apply GR_bind (GR_from g1 (S.printPairs _ _ _ _ _ _ _ _ _ (G.pre hp g1) hk.1 hk.2))
       intro q gq
@@ -480,9 +480,9 @@ theorem step_printFields {env : Env} {n : Nat} (S : Spec env n) :
   · rename_i name exported it v rest
     have hv : ValOk v ∧ FieldsOk rest := by simpa [FieldsOk] using hfs
     dsimp only
-    have g1 : G p (if f = true then p else if p.f.sharpV = true then p.w ", ".toUTF8.toList else p.wb 0x20) :=
+    have g1 : G p (if f = true then p else if p.f.sharpV = true then p.w ([0x2C, 0x20] /- ", " -/ : List UInt8) else p.wb 0x20) :=
       G_ite (G.refl hp) (G_ite (G_w hp _) (G_wb hp _))
-    generalize (if f = true then p else if p.f.sharpV = true then p.w ", ".toUTF8.toList else p.wb 0x20) = p1 at g1 ⊢
+    generalize (if f = true then p else if p.f.sharpV = true then p.w ([0x2C, 0x20] /- ", " -/ : List UInt8) else p.wb 0x20) = p1 at g1 ⊢
     have h1 := G.pre hp g1
     have g2 : G p1 (if p1.f.plusV = true ∨ p1.f.sharpV = true then (p1.w name).wb 0x3A else p1) :=
       G_ite (G.trans (G_w h1 _) (G_wb (G.pre h1 (G_w h1 _)) _)) (G.refl h1)
@@ -502,9 +502,9 @@ theorem step_printElems {env : Env} {n : Nat} (S : Spec env n) :
   · rename_i v rest
     have hv : ValOk v ∧ ValsOk rest := by simpa [ValsOk] using hvs
     dsimp only
-    have g1 : G p (if f = true then p else if p.f.sharpV = true then p.w ", ".toUTF8.toList else p.wb 0x20) :=
+    have g1 : G p (if f = true then p else if p.f.sharpV = true then p.w ([0x2C, 0x20] /- ", " -/ : List UInt8) else p.wb 0x20) :=
       G_ite (G.refl hp) (G_ite (G_w hp _) (G_wb hp _))
-    generalize (if f = true then p else if p.f.sharpV = true then p.w ", ".toUTF8.toList else p.wb 0x20) = p1 at g1 ⊢
+    generalize (if f = true then p else if p.f.sharpV = true then p.w ([0x2C, 0x20] /- ", " -/ : List UInt8) else p.wb 0x20) = p1 at g1 ⊢
     have h1 := G.pre hp g1
     apply GR_from g1
     apply GR_bind (S.printSlot _ _ _ _ _ _ h1 hv.1)
@@ -520,9 +520,9 @@ theorem step_printPairs {env : Env} {n : Nat} (S : Spec env n) :
     have hk : ValOk k ∧ ValsOk kr := by simpa [ValsOk] using hks
     have hv : ValOk v ∧ ValsOk vr := by simpa [ValsOk] using hvs
     dsimp only
-    have g1 : G p (if f = true then p else if p.f.sharpV = true then p.w ", ".toUTF8.toList else p.wb 0x20) :=
+    have g1 : G p (if f = true then p else if p.f.sharpV = true then p.w ([0x2C, 0x20] /- ", " -/ : List UInt8) else p.wb 0x20) :=
       G_ite (G.refl hp) (G_ite (G_w hp _) (G_wb hp _))
-    generalize (if f = true then p else if p.f.sharpV = true then p.w ", ".toUTF8.toList else p.wb 0x20) = p1 at g1 ⊢
+    generalize (if f = true then p else if p.f.sharpV = true then p.w ([0x2C, 0x20] /- ", " -/ : List UInt8) else p.wb 0x20) = p1 at g1 ⊢
     have h1 := G.pre hp g1
     apply GR_from g1
     apply GR_bind (S.printSlot _ _ _ _ _ _ h1 hk.1)
@@ -555,7 +555,7 @@ theorem widthStage_G (p : PP) (args : List Val) (argNum : Nat) (r : List Byte) (
     dsimp only
     let p1 : PP := { p with f := { p.f with wid := num.toNat, widPresent := isInt } }
     have h1 : Pre p1 := Pre_congr rfl hp
-    have g2 : G p1 (if (!isInt) = true then p1.w "%!(BADWIDTH)".toUTF8.toList else p1) := G_ite (G_w h1 _) (G.refl h1)
+    have g2 : G p1 (if (!isInt) = true then p1.w ([0x25, 0x21, 0x28, 0x42, 0x41, 0x44, 0x57, 0x49, 0x44, 0x54, 0x48, 0x29] /- "%!(BADWIDTH)" -/ : List UInt8) else p1) := G_ite (G_w h1 _) (G.refl h1)
     have h2 := G.pre h1 g2
     exact G.trans (G_same hp rfl rfl) (G.trans g2 (G_ite (G_same h2 rfl rfl) (G.refl h2)))
   · dsimp only
@@ -698,8 +698,8 @@ theorem step_extraLoop {env : Env} {n : Nat} (S : Spec env n) :
   · exact GR_ok (G.refl hp)
   · rename_i a rest
     dsimp only
-    have g1 : G p (if f = true then p else p.w ", ".toUTF8.toList) := G_ite (G.refl hp) (G_w hp _)
-    generalize (if f = true then p else p.w ", ".toUTF8.toList) = p1 at g1 ⊢
+    have g1 : G p (if f = true then p else p.w ([0x2C, 0x20] /- ", " -/ : List UInt8)) := G_ite (G.refl hp) (G_w hp _)
+    generalize (if f = true then p else p.w ([0x2C, 0x20] /- ", " -/ : List UInt8)) = p1 at g1 ⊢
     have h1 := G.pre hp g1
     apply GR_from g1
     apply GR_bind (p := p1)
@@ -721,7 +721,7 @@ theorem step_finishPrintf {env : Env} {n : Nat} (S : Spec env n) :
   · dsimp only
     let p1 : PP := { p with f := p.f.clear }
     have h1 : Pre p1 := Pre_congr rfl hp
-    have g2 := G_w h1 "%!(EXTRA ".toUTF8.toList
+    have g2 := G_w h1 ([0x25, 0x21, 0x28, 0x45, 0x58, 0x54, 0x52, 0x41, 0x20] /- "%!(EXTRA " -/ : List UInt8)
     apply GR_congr (p1 := p1) rfl rfl
     apply GR_then_wb h1 _ 0x29
     exact GR_from g2 (S.extraLoop _ _ _ (G.pre h1 g2) (listOk_drop ha k))
@@ -768,10 +768,10 @@ theorem step_directiveTail {env : Env} {n : Nat} (S : Spec env n) :
     · have g := G_wb h4 0x25
       exact GR_from g (S.fmtLoop _ _ _ _ _ (G.pre h4 g) ha)
     · split
-      · have g := G.trans wbang (G_w (G.pre h4 wbang) "(BADINDEX)".toUTF8.toList)
+      · have g := G.trans wbang (G_w (G.pre h4 wbang) ([0x28, 0x42, 0x41, 0x44, 0x49, 0x4E, 0x44, 0x45, 0x58, 0x29] /- "(BADINDEX)" -/ : List UInt8))
         exact GR_from g (S.fmtLoop _ _ _ _ _ (G.pre h4 g) ha)
       · split
-        · have g := G.trans wbang (G_w (G.pre h4 wbang) "(MISSING)".toUTF8.toList)
+        · have g := G.trans wbang (G_w (G.pre h4 wbang) ([0x28, 0x4D, 0x49, 0x53, 0x53, 0x49, 0x4E, 0x47, 0x29] /- "(MISSING)" -/ : List UInt8))
           exact GR_from g (S.fmtLoop _ _ _ _ _ (G.pre h4 g) ha)
         · have h5 : Pre (if verb = 118 then ({ p4 with f := { p4.f with sharpV := p4.f.sharp, sharp := false, plusV := p4.f.plus, plus := false } } : PP) else p4) := by
             split
